@@ -15,8 +15,8 @@ type DocSpec struct {
 }
 
 var (
-	S3 = []interface{}{float64(1), "a", nil}
-	S5 = []interface{}{float64(1), float64(2), "a", true, nil}
+	S3  = []interface{}{float64(1), "a", nil}
+	S5  = []interface{}{float64(1), float64(2), "a", true, nil}
 	KAB = []string{"a", "b"}
 )
 
